@@ -307,19 +307,19 @@ Section TemplateStringProofs.
   Definition interp_start (c : N) (X : str) : bool :=
     (c =? DOLLAR) && match X with b :: _ => b =? LBRACE | [] => false end.
 
-  Lemma tsl_self q c X f fresh : c <> BSL -> c <> q -> interp_start c X = false ->
-    ts_loop (S f) q (c :: X) fresh = prependT [c] (ts_loop f q X false).
+  Lemma tsl_self q c X f : c <> BSL -> c <> q -> interp_start c X = false ->
+    ts_loop (S f) q (c :: X) = prependT [c] (ts_loop f q X).
   Proof.
     intros H1 H2 H3. cbn [StrScan.ts_loop]. apply N.eqb_neq in H1, H2.
     unfold interp_start in H3. rewrite H1, H3, H2. unfold prependT.
-    destruct (ts_loop f q X false) as [[[seg ps] rest]| | |]; reflexivity.
+    destruct (ts_loop f q X) as [[[seg ps] rest]| | |]; reflexivity.
   Qed.
 
-  Lemma tsl_pair q e X f fresh : is_escape e || (e =? q) = true ->
-    ts_loop (S f) q (BSL :: e :: X) fresh = prependT [BSL; e] (ts_loop f q X false).
+  Lemma tsl_pair q e X f : is_escape e || (e =? q) = true ->
+    ts_loop (S f) q (BSL :: e :: X) = prependT [BSL; e] (ts_loop f q X).
   Proof.
     intros H. cbn [StrScan.ts_loop]. rewrite N.eqb_refl, H. unfold prependT.
-    destruct (ts_loop f q X false) as [[[seg ps] rest]| | |]; reflexivity.
+    destruct (ts_loop f q X) as [[[seg ps] rest]| | |]; reflexivity.
   Qed.
 
   Lemma prependT_prependT p1 p2 r : prependT p1 (prependT p2 r) = prependT (p1 ++ p2) r.
@@ -331,8 +331,8 @@ Section TemplateStringProofs.
   Lemma tsl_hex4 q a b c d X f x y z w :
     is_quote q ->
     hexval a = Some x -> hexval b = Some y -> hexval c = Some z -> hexval d = Some w ->
-    ts_loop (4 + f) q (a :: b :: c :: d :: X) false
-    = prependT [a; b; c; d] (ts_loop f q X false).
+    ts_loop (4 + f) q (a :: b :: c :: d :: X)
+    = prependT [a; b; c; d] (ts_loop f q X).
   Proof.
     intros Hq Ha Hb Hc Hd.
     apply hexval_facts in Ha as (A1 & A2 & A3 & A4), Hb as (B1 & B2 & B3 & B4),
@@ -345,13 +345,10 @@ Section TemplateStringProofs.
     rewrite !tsl_self by auto. rewrite !prependT_prependT. reflexivity.
   Qed.
 
-  Lemma ts_loop_fresh_irrel f q X b1 b2 : X <> [] -> ts_loop f q X b1 = ts_loop f q X b2.
-  Proof. intros H. destruct f; [reflexivity|]. destruct X; [congruence|reflexivity]. Qed.
-
   (** Scanning one piece: it uses at most as much fuel as it has characters. *)
-  Lemma tsl_piece q c p X f fresh : is_quote q -> LPiece q c p ->
+  Lemma tsl_piece q c p X f : is_quote q -> LPiece q c p ->
     ~ (p = [DOLLAR] /\ hd_error X = Some LBRACE) ->
-    exists d, ts_loop (length p + f) q (p ++ X) fresh = prependT p (ts_loop (f + d) q X false).
+    exists d, ts_loop (length p + f) q (p ++ X) = prependT p (ts_loop (f + d) q X).
   Proof.
     intros Hq H Hn.
     destruct H as [c H1 H2 H8|e c He|a b c d cp Hh _ _|a b c d e f' g h hi lo Hh _ Hl _].
@@ -380,25 +377,24 @@ Section TemplateStringProofs.
   Proof. unfold prependT. destruct r as [[[seg ps] rest]| | |]; reflexivity. Qed.
 
   Lemma tsl_EncT q s raw : is_quote q -> EncT q s raw ->
-    forall X f fresh, hd_error X <> Some LBRACE -> X <> [] ->
-    exists d, ts_loop (length raw + f) q (raw ++ X) fresh
-              = prependT raw (ts_loop (f + d) q X fresh).
+    forall X f, hd_error X <> Some LBRACE -> X <> [] ->
+    exists d, ts_loop (length raw + f) q (raw ++ X)
+              = prependT raw (ts_loop (f + d) q X).
   Proof.
-    intros Hq H. induction H as [|c p s r Hp Hr IH Hn]; intros X f fresh HX HXn.
+    intros Hq H. induction H as [|c p s r Hp Hr IH Hn]; intros X f HX HXn.
     - exists 0%nat. rewrite prependT_nil, Nat.add_0_r. reflexivity.
     - assert (Hn' : ~ (p = [DOLLAR] /\ hd_error (r ++ X) = Some LBRACE)).
       { intros [E1 E2]. destruct r as [|y r']; [exact (HX E2)|]. apply Hn. split; assumption. }
       rewrite <- app_assoc, app_length, <- Nat.add_assoc.
-      destruct (tsl_piece q c p (r ++ X) (length r + f) fresh Hq Hp Hn') as (d1 & ->).
+      destruct (tsl_piece q c p (r ++ X) (length r + f) Hq Hp Hn') as (d1 & ->).
       replace (length r + f + d1)%nat with (length r + (f + d1))%nat by lia.
-      destruct (IH X (f + d1)%nat false HX HXn) as (d2 & ->).
+      destruct (IH X (f + d1)%nat HX HXn) as (d2 & ->).
       exists (d1 + d2)%nat. rewrite prependT_prependT.
-      rewrite (ts_loop_fresh_irrel _ q X false fresh HXn).
       replace (f + d1 + d2)%nat with (f + (d1 + d2))%nat by lia. reflexivity.
   Qed.
 
-  Lemma tsl_close q rest f fresh : is_quote q ->
-    ts_loop (S f) q (q :: rest) fresh = Ok ([], [], rest).
+  Lemma tsl_close q rest f : is_quote q ->
+    ts_loop (S f) q (q :: rest) = Ok ([], [], rest).
   Proof.
     intros Hq. cbn [StrScan.ts_loop].
     destruct Hq; subst q; reflexivity.
@@ -429,16 +425,16 @@ Section TemplateStringProofs.
     - right. intros [?|?]; contradiction.
   Qed.
 
-  Lemma ts_loop_items q rest : is_quote q -> forall items raw0 s0 F fresh,
+  Lemma ts_loop_items q rest : is_quote q -> forall items raw0 s0 F,
     EncT q s0 raw0 -> Forall (item_ok q) items ->
     (length (raw0 ++ items_src items (q :: rest)) < F)%nat ->
-    ts_loop F q (raw0 ++ items_src items (q :: rest)) fresh
+    ts_loop F q (raw0 ++ items_src items (q :: rest))
     = Ok (raw0, items_parts items, rest).
   Proof.
-    intros Hq items. induction items as [|it its IH]; intros raw0 s0 F fresh H0 Hits HF.
+    intros Hq items. induction items as [|it its IH]; intros raw0 s0 F H0 Hits HF.
     - cbn [items_src] in *. rewrite app_length in HF. cbn [length] in HF.
       assert (HX : hd_error (q :: rest) <> Some LBRACE) by (destruct Hq; subst q; discriminate).
-      destruct (tsl_EncT q s0 raw0 Hq H0 (q :: rest) (F - length raw0) fresh HX ltac:(discriminate)) as (d & Hd).
+      destruct (tsl_EncT q s0 raw0 Hq H0 (q :: rest) (F - length raw0) HX ltac:(discriminate)) as (d & Hd).
       replace (length raw0 + (F - length raw0))%nat with F in Hd by lia. rewrite Hd.
       destruct (F - length raw0 + d)%nat as [|f'] eqn:Ef; [lia|].
       rewrite tsl_close by assumption. unfold prependT. cbn [bind]. rewrite app_nil_r. reflexivity.
@@ -447,7 +443,7 @@ Section TemplateStringProofs.
       set (Y := it_raw it ++ items_src its (q :: rest)) in *.
       set (X := DOLLAR :: LBRACE :: it_body it ++ RBRACE :: Y) in *.
       assert (HX : hd_error X <> Some LBRACE) by discriminate.
-      destruct (tsl_EncT q s0 raw0 Hq H0 X (F - length raw0) fresh HX ltac:(discriminate)) as (d & Hd).
+      destruct (tsl_EncT q s0 raw0 Hq H0 X (F - length raw0) HX ltac:(discriminate)) as (d & Hd).
       rewrite app_length in HF.
       replace (length raw0 + (F - length raw0))%nat with F in Hd by lia. rewrite Hd.
       assert (HlX : length X = (3 + length (it_body it) + length Y)%nat).
@@ -456,7 +452,7 @@ Section TemplateStringProofs.
       unfold X at 1. cbn [StrScan.ts_loop tl]. rewrite !N.eqb_refl.
       change (DOLLAR =? BSL) with false. cbn [andb].
       rewrite Hsub. cbn [bind]. rewrite N.eqb_refl. unfold Y.
-      rewrite (IH (it_raw it) (it_str it) f' true Hraw Hits') by (fold Y; lia).
+      rewrite (IH (it_raw it) (it_str it) f' Hraw Hits') by (fold Y; lia).
       cbn [bind]. unfold prependT. cbn [bind]. rewrite app_nil_r. reflexivity.
   Qed.
 End TemplateStringProofs.
@@ -480,7 +476,7 @@ Section TemplateStringTheorems.
   Proof.
     intros Hq H. unfold accept_template_string.
     pose proof (Enc_hd q s raw Hq (EncT_Enc _ _ _ H) rest) as Hh.
-    pose proof (ts_loop_items E sub q rest Hq [] raw s (S (length (raw ++ q :: rest))) true H
+    pose proof (ts_loop_items E sub q rest Hq [] raw s (S (length (raw ++ q :: rest))) H
                   (Forall_nil _) ltac:(cbn [items_src]; lia)) as Hl.
     cbn [items_src items_parts flat_map] in Hl.
     destruct (raw ++ q :: rest) as [|x t] eqn:Ex; [contradiction|].
@@ -500,7 +496,7 @@ Section TemplateStringTheorems.
   Proof.
     intros Hq H0 Hits. unfold accept_template_string.
     pose proof (ts_loop_items E sub q rest Hq (it :: its) raw0 s0
-                  (S (length (raw0 ++ items_src E (it :: its) (q :: rest)))) true H0 Hits
+                  (S (length (raw0 ++ items_src E (it :: its) (q :: rest)))) H0 Hits
                   ltac:(lia)) as Hl.
     destruct (raw0 ++ items_src E (it :: its) (q :: rest)) as [|x t] eqn:Ex.
     { destruct raw0; discriminate. }
@@ -734,35 +730,35 @@ Section TemplateStringSound.
     split; [assumption|discriminate].
   Qed.
 
-  Lemma ts_loop_inv q f : forall src fresh seg ps rest,
-    ts_loop E sub f q src fresh = Ok (seg, ps, rest) ->
+  Lemma ts_loop_inv q f : forall src seg ps rest,
+    ts_loop E sub f q src = Ok (seg, ps, rest) ->
     ScanOk q seg /\ (ps = [] -> src = seg ++ q :: rest)
     /\ (ps = [] \/ exists e ps', ps = PExpr e :: ps') /\ Forall (part_ok q) ps.
   Proof.
-    induction f as [|f IH]; intros src fresh seg ps rest H; [discriminate|].
-    cbn [ts_loop] in H. destruct src as [|c r]; [destruct fresh; discriminate|].
+    induction f as [|f IH]; intros src seg ps rest H; [discriminate|].
+    cbn [ts_loop] in H. destruct src as [|c r]; [discriminate|].
     destruct (c =? BSL) eqn:Eb.
     { apply N.eqb_eq in Eb; subst c. destruct r as [|e r']; [discriminate|].
       destruct (is_escape e || (e =? q)) eqn:Ee; [|discriminate].
-      destruct (ts_loop E sub f q r' false) as [[[seg' ps'] rest']| | |] eqn:El; cbn [bind] in H;
+      destruct (ts_loop E sub f q r') as [[[seg' ps'] rest']| | |] eqn:El; cbn [bind] in H;
         try discriminate.
-      inversion H; subst. destruct (IH _ _ _ _ _ El) as (H1 & H2 & H3 & H4).
+      inversion H; subst. destruct (IH _ _ _ _ El) as (H1 & H2 & H3 & H4).
       split; [constructor; assumption|]. split; [|split; assumption].
       intros Hp. rewrite (H2 Hp). reflexivity. }
     destruct ((c =? DOLLAR) && match r with b :: _ => b =? LBRACE | [] => false end) eqn:Ei.
     { destruct (sub (tl r)) as [[e r2]| | |]; cbn [bind] in H; try discriminate.
       destruct r2 as [|b r3]; [discriminate|]. destruct (b =? RBRACE); [|discriminate].
-      destruct (ts_loop E sub f q r3 true) as [[[seg' ps'] rest']| | |] eqn:El; cbn [bind] in H;
+      destruct (ts_loop E sub f q r3) as [[[seg' ps'] rest']| | |] eqn:El; cbn [bind] in H;
         try discriminate.
-      inversion H; subst. destruct (IH _ _ _ _ _ El) as (H1 & H2 & H3 & H4).
+      inversion H; subst. destruct (IH _ _ _ _ El) as (H1 & H2 & H3 & H4).
       split; [constructor|]. split; [discriminate|]. split; [right; eexists _, _; reflexivity|].
       constructor; [exact I|]. apply Forall_app. split; [apply emit_ok; assumption|assumption]. }
     destruct (c =? q) eqn:Eq.
     { inversion H; subst. apply N.eqb_eq in Eq; subst c.
       split; [constructor|]. split; [reflexivity|]. split; [left; reflexivity|constructor]. }
-    destruct (ts_loop E sub f q r false) as [[[seg' ps'] rest']| | |] eqn:El; cbn [bind] in H;
+    destruct (ts_loop E sub f q r) as [[[seg' ps'] rest']| | |] eqn:El; cbn [bind] in H;
       try discriminate.
-    inversion H; subst. destruct (IH _ _ _ _ _ El) as (H1 & H2 & H3 & H4).
+    inversion H; subst. destruct (IH _ _ _ _ El) as (H1 & H2 & H3 & H4).
     apply N.eqb_neq in Eb, Eq.
     split; [constructor; assumption|]. split; [|split; assumption].
     intros Hp. rewrite (H2 Hp). reflexivity.
@@ -778,9 +774,9 @@ Section TemplateStringSound.
     unfold accept_template_string. destruct src as [|c r]; [discriminate|].
     destruct (c =? q) eqn:Eq.
     { intros H; inversion H; subst. apply N.eqb_eq in Eq; subst c. split; [constructor|reflexivity]. }
-    destruct (ts_loop E sub (S (length (c :: r))) q (c :: r) true) as [[[seg ps] rest']| | |] eqn:El;
+    destruct (ts_loop E sub (S (length (c :: r))) q (c :: r)) as [[[seg ps] rest']| | |] eqn:El;
       cbn [bind]; try discriminate.
-    destruct (ts_loop_inv q _ _ _ _ _ _ El) as (H1 & H2 & H3 & H4).
+    destruct (ts_loop_inv q _ _ _ _ _ El) as (H1 & H2 & H3 & H4).
     assert (Hall : Forall (part_ok q) (emit E seg ++ ps))
       by (apply Forall_app; split; [apply emit_ok; assumption|assumption]).
     destruct seg as [|x seg'].
@@ -884,7 +880,6 @@ Lemma literal_errors_segment q src st : is_quote q -> no_surrogates src ->
   match accept_string q src with
   | Ok (raw, rest) => ok_or_syntax (site_value st q raw)
   | LErr LiquidSyntaxError None => True
-  | PyExc IndexError => src = []
   | _ => False
   end.
 Proof.
@@ -893,17 +888,59 @@ Proof.
     rewrite site_value_eq by assumption. apply unescape_total. unfold no_surrogates in *.
     rewrite H2 in Hs. apply existsb_app_l in Hs.
     destruct (q =? SQ); [apply (existsb_replace (length raw)); [lia|assumption]|assumption].
+  - unfold accept_string in Ea. destruct src as [|c r].
+    + inversion Ea; subst. exact I.
+    + destruct (c =? q); [discriminate|].
+      pose proof (asl_total q (length (c :: r)) (c :: r) (le_n _)) as P. rewrite Ea in P.
+      destruct cl, pp; try contradiction. exact I.
   - unfold accept_string in Ea. destruct src as [|c r]; [discriminate|].
-    destruct (c =? q); [discriminate|].
-    pose proof (asl_total q (length (c :: r)) (c :: r) (le_n _)) as P. rewrite Ea in P.
-    destruct cl, pp; try contradiction. exact I.
-  - unfold accept_string in Ea. destruct src as [|c r]; [destruct k; try discriminate; reflexivity|].
     destruct (c =? q); [discriminate|].
     pose proof (asl_total q (length (c :: r)) (c :: r) (le_n _)) as P. rewrite Ea in P. contradiction.
   - unfold accept_string in Ea. destruct src as [|c r]; [discriminate|].
     destruct (c =? q); [discriminate|].
     pose proof (asl_total q (length (c :: r)) (c :: r) (le_n _)) as P. rewrite Ea in P. contradiction.
 Qed.
+
+(** The template-string scanner raises nothing but what the sub-expression
+    scanner raises, and never runs out of fuel, provided the sub-expression
+    scanner returns a suffix of its input. *)
+Section TemplateStringTotal.
+  Variable E : Type.
+  Variable sub : str -> res (E * str).
+  Hypothesis sub_total : forall x, ok_or_syntax (sub x).
+  Hypothesis sub_suffix : forall x e r, sub x = Ok (e, r) -> (length r <= length x)%nat.
+
+  Lemma ts_loop_total q f : forall src, (length src < f)%nat -> ok_or_syntax (ts_loop E sub f q src).
+  Proof.
+    induction f as [|f IH]; intros src Hl; [lia|].
+    cbn [ts_loop]. destruct src as [|c r]; [exact I|]. cbn [length] in Hl.
+    destruct (c =? BSL).
+    { destruct r as [|e r']; [exact I|]. destruct (is_escape e || (e =? q)); [|exact I].
+      cbn [length] in Hl. pose proof (IH r' ltac:(lia)) as P.
+      destruct (ts_loop E sub f q r') as [[[seg ps] rest]|cl [pp|]|k|]; cbn [bind]; exact P || exact I. }
+    destruct ((c =? DOLLAR) && match r with b :: _ => b =? LBRACE | [] => false end).
+    { pose proof (sub_total (tl r)) as P. pose proof (sub_suffix (tl r)) as L.
+      destruct (sub (tl r)) as [[e r2]|cl [pp|]|k|]; cbn [bind]; try exact P.
+      destruct r2 as [|b r3]; [exact I|]. destruct (b =? RBRACE); [|exact I].
+      specialize (L e (b :: r3) eq_refl). cbn [length] in L.
+      assert (length (tl r) <= length r)%nat by (destruct r; cbn [tl length]; lia).
+      pose proof (IH r3 ltac:(lia)) as P3.
+      destruct (ts_loop E sub f q r3) as [[[seg ps] rest]|cl [pp|]|k|]; cbn [bind]; exact P3 || exact I. }
+    destruct (c =? q); [exact I|].
+    pose proof (IH r ltac:(lia)) as P.
+    destruct (ts_loop E sub f q r) as [[[seg ps] rest]|cl [pp|]|k|]; cbn [bind]; exact P || exact I.
+  Qed.
+
+  Lemma literal_errors_token q src : ok_or_syntax (accept_template_string E sub q src).
+  Proof.
+    unfold accept_template_string. destruct src as [|c r]; [exact I|].
+    destruct (c =? q); [exact I|].
+    pose proof (ts_loop_total q (S (length (c :: r))) (c :: r) ltac:(lia)) as P.
+    destruct (ts_loop E sub (S (length (c :: r))) q (c :: r)) as [[[seg ps] rest]|cl [pp|]|k|];
+      cbn [bind]; try exact P.
+    destruct (emit E seg ++ ps) as [|[raw|e] [|? ?]]; exact I.
+  Qed.
+End TemplateStringTotal.
 
 (** * Non-vacuity *)
 
